@@ -138,30 +138,43 @@ struct Unit {
 fn units(run: &Run) -> Vec<Unit> {
     let mut u = vec![];
     let quick = run.quick();
-    // explicit-state full search (no preemption bound)
+    // explicit-state full search (no preemption bound): cheap, so it goes furthest
     for w in 0..=3usize {
-        for n in 0..=(if quick { 3 } else { 5 }) {
-            if !quick || w <= 3 {
-                u.push(Unit { mode: "states", w, n, bound: None });
-            }
+        for n in 0..=(if quick { 3 } else { 6 }) {
+            u.push(Unit { mode: "states", w, n, bound: None });
         }
     }
     if !quick {
-        for n in 0..=3 {
+        for n in 0..=4 {
             u.push(Unit { mode: "states", w: 4, n, bound: None });
         }
-    }
-    // stateless preemption-bounded cross-check (merges nothing)
-    for w in 1..=3usize {
-        for n in 1..=(if quick { 3 } else { 4 }) {
-            let bound = match (quick, w) {
-                (true, 1) | (true, 2) => 3,
-                (true, _) => if n <= 2 { 2 } else { 1 },
-                (false, 1) | (false, 2) => 4,
-                (false, _) => if n <= 3 { 3 } else { 2 },
-            };
-            u.push(Unit { mode: "bounded", w, n, bound: Some(bound) });
+        for n in 0..=2 {
+            u.push(Unit { mode: "states", w: 5, n, bound: None });
         }
+    }
+    // stateless preemption-bounded cross-check (merges nothing; grows fast with the bound)
+    let mut bounded = |w: usize, n: usize, bound: usize| u.push(Unit { mode: "bounded", w, n, bound: Some(bound) });
+    if quick {
+        for n in 1..=3 {
+            bounded(1, n, 3);
+            bounded(2, n, if n <= 2 { 3 } else { 2 });
+        }
+        bounded(3, 1, 2);
+        bounded(3, 2, 2);
+        bounded(3, 3, 1);
+    } else {
+        for n in 1..=4 {
+            bounded(1, n, 4);
+            bounded(2, n, 3);
+        }
+        for n in 1..=3 {
+            bounded(2, n, 4);
+            bounded(3, n, 2);
+        }
+        bounded(3, 1, 3);
+        bounded(3, 2, 3);
+        bounded(3, 4, 1);
+        bounded(4, 2, 1);
     }
     u
 }
